@@ -20,6 +20,13 @@ Inductive st := Wait | Resync | InSync.          (* api.WaitForDatastore (the ze
 Definition st_eqb (a b : st) : bool :=
   match a, b with Wait, Wait | Resync, Resync | InSync, InSync => true | _, _ => false end.
 
+(* Revisions are strings in the code; the model needs only equality, "is it 0" and "is it empty".  A decimal
+   revision is its value ("0" = 0); the EMPTY revision string "" is the number 2^64, which no decimal revision the
+   driver produces (uint64) can equal. *)
+Definition rev_empty : N := 18446744073709551616.
+(* `l.Revision == "" || l.Revision == "0"` *)
+Definition zero_rev (r : N) : bool := N.eqb r 0 || N.eqb r rev_empty.
+
 Record item := mkItem { ikey : N; irev : N; ival : N }.
 
 Inductive lerr := LNotFound | LExpired (* expired or "too large resource version" *) | LOther.
@@ -182,7 +189,7 @@ Section WithOrder.
         let '(c1, o1) := match status c with Wait => send_status c Resync | _ => (c, []) end in
         let '(c2, old, o2) := handle_items g (set_res c1 []) (res c1) items in
         let '(c3, o3) := finish_resync c2 old in
-        if N.eqb lrev 0 then
+        if zero_rev lrev then
           match items with
           | [] => Some (seq2 (set_pfr (set_rev (set_polls c3 true false) 0%N) true, o1 ++ o2 ++ o3) loop_top)
           | _ => None            (* logger.Panic("BUG: List returned items with empty/zero revision") *)
@@ -303,6 +310,32 @@ Section WithOrder.
         | Some (s1, o) => match syncer_run gs s1 rest with Some (s2, os) => Some (s2, o :: os) | None => None end
         | None => None
         end
+    end.
+
+  (* ---- the one deliberate panic: `BUG: List returned items with empty/zero revision` ----
+     The guard, exactly as in the code: a List that succeeds WITH items and whose revision is "" or "0".  Everything
+     up to finishResync has been sent by then (the items' updates, the resync deletions, InSync); [cache_step] is
+     [None] on such an input.  [panic_results] repeats the first half of [step_list] for that observation. *)
+  Definition list_panics (r : resp) : bool :=
+    match r with RListOk (_ :: _) lrev => zero_rev lrev | _ => false end.
+  Definition panic_results (g : cfg) (c : cache) (tick : bool) (items : list item) : list result :=
+    let c := set_stale c (stale c || tick) in
+    let c := set_crd (mark_connected c) true in
+    let '(c1, o1) := match status c with Wait => send_status c Resync | _ => (c, []) end in
+    let '(c2, old, o2) := handle_items g (set_res c1 []) (res c1) items in
+    let '(c3, o3) := finish_resync c2 old in
+    o1 ++ o2 ++ o3.
+  (* callbacks seen before cache i dies, if that input makes it panic *)
+  Definition syncer_panic (gs : list cfg) (s : syncer) (i : nat) (tick : bool) (r : resp) : option (list out) :=
+    match nth_error gs i, nth_error (caches s) i, r with
+    | Some g, Some c, RListOk items _ =>
+        match ph c with
+        | PList => if list_panics r
+                   then let '(_, _, o) := proc_all i (cstat s) (wstatus s) (panic_results g c tick items) in Some o
+                   else None
+        | _ => None
+        end
+    | _, _, _ => None
     end.
 End WithOrder.
 
